@@ -7,6 +7,8 @@
     Definitions only; nodes and distances are [nat] (they are bounded by the number of
     nodes, a list length). *)
 From Coq Require Import List Arith Bool Lia.
+
+Module EssSpecM.
 Import ListNotations.
 
 Definition graph := list (list nat).
@@ -158,3 +160,7 @@ Definition largest_scc_nodes (dm : list (list (option nat))) : list nat :=
 Definition check_ess_default (g : graph) (o : ess_out) (l : level) : bool :=
   let dm := dist_matrix g in
   existsb (fun c => check_ess_dm dm (radial_of dm c) o l) (largest_scc_nodes dm).
+
+
+End EssSpecM.
+Export EssSpecM.
